@@ -139,6 +139,9 @@ func spollVariants(tier string) []vsched.Variant {
 	// a connection starts tracking a key: cold (nobody tracks it) and warm (another connection does)
 	add(mk(vk, "coldtrack", 1, ops("track:1:a:0", "pub:a:2"), c1b), 2, 1, 1)
 	add(mk(vk, "join", 2, ops("track:2:a:0", "pub:a:2"), c2sub), 2, 1, 1)
+	// a connection starts tracking a live key with a stale, non-zero version on a channel without cached
+	// data (the track reply carries nothing): it must still be brought to the newest version
+	add(mk(v0, "stale-track", 2, ops("pub:a:2,track:2:a:1"), c2sub), 1, 1, 1)
 	// a track whose authorization callback completes on another thread, overtaken by an unsubscribe
 	// and a resubscribe of the same channel on the same connection: the late track must not attach
 	// to the new subscription
@@ -707,10 +710,10 @@ func spollOracle(cfg spollCfg, be *spollBackend, c *spollConn, setupFrames int) 
 		}
 		if be.versioned() {
 			if m.ver != want || !bytes.Equal(m.data, wantData) {
-				fail("not-newest-at-quiescence:"+cfg.mode+":"+since, "key %s is tracked, the newest version supplied is %d, the connection holds version %d (data %s)", k, want, m.ver, m.data)
+				fail("not-newest-at-quiescence:"+cfg.mode+":"+since+":"+cfg.label, "key %s is tracked, the newest version supplied is %d, the connection holds version %d (data %s)", k, want, m.ver, m.data)
 			}
 		} else if !m.has || !bytes.Equal(m.data, wantData) {
-			fail("not-newest-at-quiescence:"+cfg.mode+":"+since, "key %s is tracked, the backend's current data is generation %d, the connection holds %s", k, want, m.data)
+			fail("not-newest-at-quiescence:"+cfg.mode+":"+since+":"+cfg.label, "key %s is tracked, the backend's current data is generation %d, the connection holds %s", k, want, m.data)
 		}
 	}
 	sort.Strings(held)
